@@ -2665,6 +2665,9 @@ class PGPKey(Armorable, ParentRef, PGPObject):
                 # and file away pgpobj
                 if isinstance(pgpobj, PGPKey):
                     if pgpobj.is_primary:
+                        # a key that occurs again in the blob must become the most recent entry again, or the
+                        # user ids and subkeys that follow it would be attached to the key parsed before it
+                        keys.pop((pgpobj.fingerprint.keyid, pgpobj.is_public), None)
                         keys[(pgpobj.fingerprint.keyid, pgpobj.is_public)] = pgpobj
 
                     else:
